@@ -4,6 +4,7 @@ import (
 	"math/rand"
 	"reflect"
 	"sort"
+	"strconv"
 	"time"
 
 	"verif/harness/absval"
@@ -146,7 +147,7 @@ func build(n map[string]any) any {
 			}
 			return s
 		case "flt":
-			f, _ := strconvParse(a["s"].(string))
+			f, _ := strconv.ParseFloat(a["s"].(string), 64)
 			if g {
 				return gen.Float(f)
 			}
